@@ -172,6 +172,8 @@ def find_function(src, qual, pick=1, params_sub=None, inclass=False):
         pre = '\n'.join(l for l in pre.split('\n') if not l.strip().startswith('#'))
         pre = re.sub(r'\b(public|private|protected)\s*:', ' ', pre)
         ret = ' '.join(pre.split())
+        if not ret and '~' in qual:
+            ret = 'void'   # destructor definition
         if not ret or ret.endswith(('=', ',', '(', 'return', '&&', '||', '!')):
             continue  # a call inside an expression, not a definition
         if params_sub is not None and params_sub not in ' '.join(params.split()):
